@@ -72,15 +72,18 @@ Record alt := mkAlt {
 
 (* ---- further queries on the undamaged block *)
 Inductive pred := PAll | PPrefix (p : bstr) | PEq (v : bstr).
-Inductive mkind := MEq | MNeq | MRePlus | MRePrefix.     (* n="v", n!="v", n=~".+", n=~"v.*" (v quoted) *)
-Record matcher := mkM { m_kind : mkind; m_name : bstr; m_val : bstr }.
+Inductive mkind := MEq | MNeq | MRePlus | MRePrefix      (* n="v", n!="v", n=~".+", n=~"v.*" (v quoted) *)
+                 | MReSet | MNReSet.                     (* n=~"v1|v2|..", n!~"v1|v2|.." (alternatives m_vals, in the order given) *)
+Record matcher := mkM { m_kind : mkind; m_name : bstr; m_val : bstr; m_vals : list bstr }.
 Record queries := mkQ {
   q_slvals : list (bstr * list bstr);                       (* SortedLabelValues(name) *)
   q_match : list (bstr * option pred * rres (list N));      (* PostingsForLabelMatching; None: PostingsForAllLabelValues *)
   q_sel : list (bool * list matcher * rres (list N));       (* PostingsForMatchers; true: a block querier's Select (refs of the series returned) *)
   q_lnames_m : list (list matcher * rres (list bstr));      (* LabelNames(matchers) *)
   q_lvals_m : list (bstr * list matcher * rres (list bstr)); (* LabelValues(name, matchers), sorted by the harness (order unspecified) *)
-  q_lnfor : list (list N * rres (list bstr))               (* LabelNamesFor(list postings of these refs) *)
+  q_lnfor : list (list N * rres (list bstr));              (* LabelNamesFor(list postings of these refs) *)
+  q_mpost : list (bstr * list bstr * rres (list N))        (* Postings(name, values...) with the values in exactly this order
+                                                              (unsorted, duplicates, absent values) *)
 }.
 
 Record case := mkCase {
@@ -287,7 +290,12 @@ Definition queries_agree (r : ireader) (q : queries) : bool :=
       forallb (fun x => list_eqb bytes_eqb (snd x) (ir_label_values r (fst x))) (q_slvals q) &&
       forallb (fun x => let '(n, p, res) := x in
                         rres_eqb (list_eqb N.eqb) (ir_postings_matching r n p) res) (q_match q) &&
-      forallb (fun x => rres_eqb (list_eqb bytes_eqb) (label_names_for crc32c r (fst x) None) (snd x)) (q_lnfor q)
+      forallb (fun x => rres_eqb (list_eqb bytes_eqb) (label_names_for crc32c r (fst x) None) (snd x)) (q_lnfor q) &&
+      (* Reader.Postings(name, values...): the union of the per-value lists, whatever the order of the values *)
+      forallb (fun x => let '(n, vs, res) := x in
+                        rres_eqb (list_eqb N.eqb)
+                          (match rres_all (map (ir_postings crc32c r n) vs) with
+                           | ROk ls => ROk (merge_refs ls) | RErr e => RErr e end) res) (q_mpost q)
   end.
 
 Definition agree (c : case) : bool :=
@@ -410,6 +418,8 @@ Definition matches (m : matcher) (ls : list lbl) : bool :=
   | MNeq => negb (bytes_eqb v (m_val m))
   | MRePlus => nonempty v
   | MRePrefix => prefixb (m_val m) v
+  | MReSet => existsb (bytes_eqb v) (m_vals m)
+  | MNReSet => negb (existsb (bytes_eqb v) (m_vals m))
   end.
 Definition selected (ms : list matcher) (ss : list (N * list lbl * list cmeta)) :=
   filter (fun '(_, ls, _) => forallb (fun m => matches m ls) ms) ss.
@@ -456,7 +466,14 @@ Definition queries_ok (bo : block_obs) (q : queries) : bool :=
                                      (sort_u (map fst (flat_map (fun '(_, ls, _) => ls)
                                                          (filter (fun '(r, _, _) => existsb (N.eqb r) (fst x)) ss))))
                         | RErr _ => false
-                        end) (q_lnfor q)
+                        end) (q_lnfor q) &&
+      (* Postings(name, values...): the series whose value of the name is one of the values *)
+      forallb (fun x => let '(n, vs, res) := x in
+                 match res with
+                 | ROk l => list_eqb N.eqb l
+                              (refs (filter (fun '(_, ls, _) => let v := value_of ls n in nonempty v && existsb (bytes_eqb v) vs) ss))
+                 | RErr _ => false
+                 end) (q_mpost q)
   end.
 
 (* "reported as an error when it is read instead of being returned as data": an error, or —
